@@ -2,5 +2,5 @@ Require Import Verif.Model.C01 Verif.Gen.Prog_C01.
 Require Extraction.
 Require Import ExtrOcamlBasic.
 (* the runner answers with the program REGENERATED from the source on this run *)
-Definition run := run_C01_y (mkPcalls gen_param_call gen_header_call gen_xhr_call gen_method_call) gen_connect gen_call gen_nest_prefix gen_prefix_pattern gen_get_routes gen_has_routes gen_get_route.
+Definition run := run_C01_y (mkPcalls gen_param_call gen_header_call gen_xhr_call gen_method_call) gen_connect gen_call gen_nest_prefix gen_prefix_pattern gen_legacy_pattern gen_get_routes gen_has_routes gen_get_route.
 Extraction "C01_model.ml" run.
